@@ -281,7 +281,50 @@ class Long(Harness):
         ctx.observe(n)
 
 
-LFSR, ENCODE, INVERSE, STUFF, CORRUPT, LONG = Lfsr(), Encode(), Inverse(), Stuff(), Corrupt(), Long()
+class WireLong(Harness):
+    """Q8: worst-case stuffing on the wire: a DATA frame whose *randomised* data field consists of reserved bytes (every
+    byte escaped) must come back from the receive side exactly, whole or byte by byte - the stuffed image of a legal frame
+    is up to twice as long as the frame."""
+
+    name = "c03_wire_long"
+    must_reach = ("delivered",)
+    functions = ("AshProtocol.data_received", "AshProtocol._unstuff_bytes", "parse_frame", "DataFrame.from_bytes", "AshProtocol._write_frame", "AshProtocol._stuff_bytes")
+
+    def run(self, ctx, lengths=(1, 64, 100, 126, 127, 128)):
+        from refs.stubs import FakeTransport, Upper
+
+        ash = ctx.ash
+        n = lengths[ctx.choice("len", len(lengths))]
+        res = R.RESERVED[ctx.choice("reserved", len(R.RESERVED))]
+        mix = ctx.flag("mixed")
+        seq = R.lfsr(n)
+        pl = [((res if (not mix or i % 2 == 0) else R.RESERVED[(i // 2) % len(R.RESERVED)]) ^ seq[i]) for i in range(n)]
+        frm = ctx.choice("frm", 2) * 7
+        wire = R.wire(R.data_frame(frm, 0, 0, pl))
+        up = Upper()
+        p = ash.AshProtocol(up)
+        tr = FakeTransport()
+        p.connection_made(tr)
+        up.events.clear()
+        p._rx_seq = frm
+        if ctx.flag("bytewise"):
+            for b in wire:
+                p.data_received(ctx.mkbytes([b]))
+        else:
+            p.data_received(ctx.mkbytes(wire))
+        ups = [e for e in up.events if e[0] == "up"]
+        ctx.label("delivered")
+        ctx.check(len(ups) == 1, "a valid DATA frame with a %d-byte payload whose stuffed image is %d bytes long was handed up %d times" % (n, len(wire), len(ups)),
+                  "long-stuffed-frame-lost")
+        ctx.check(bytes(ups[0][1]) == bytes(pl), "payload of the %d-byte frame changed on the receive side" % n, "long-stuffed-payload")
+        # and the host's own encoder produces the same stuffed image
+        w0 = len(tr.writes)
+        p._write_frame(ash.DataFrame(frm_num=frm, re_tx=0, ack_num=0, ezsp_frame=ctx.mkbytes(pl)))
+        ctx.check(bytes(tr.writes[w0][1]) == bytes(wire), "host wrote a different stuffed image for the %d-byte payload" % n, "long-stuffed-write")
+        ctx.observe(n, len(wire))
+
+
+LFSR, ENCODE, INVERSE, STUFF, CORRUPT, LONG, WIRELONG = Lfsr(), Encode(), Inverse(), Stuff(), Corrupt(), Long(), WireLong()
 
 
 def main(tier):
@@ -299,6 +342,7 @@ def main(tier):
         c.run("checks.c03:STUFF", {"n": 3})
         c.run("checks.c03:CORRUPT", {"L": 4})
         c.run("checks.c03:LONG", {"lengths": (129, 200), "back": 2})
+        c.run("checks.c03:WIRELONG", {})
         c.out_of_bounds += ["fully symbolic payloads longer than 2 bytes (thorough: 6); longer payloads only as concrete pattern + two symbolic bytes (lengths 129, 200)",
                             "arbitrary accepted byte strings longer than 5 bytes (thorough: 7)", "corruptions of frames longer than 4 bytes (thorough: 6), three or more flipped bits",
                             "ACK/NAK candidates carrying a data field are don't-care for the exact-inverse clause"]
@@ -310,6 +354,7 @@ def main(tier):
         c.run("checks.c03:CORRUPT", {"L": 6}, wall_s=3000)
         c.run("checks.c03:LONG", {"lengths": tuple(range(0, 201, 8)) + (1, 127, 128, 129, 199), "back": 2})
         c.run("checks.c03:LONG", {"lengths": (16, 64, 128, 129, 200), "back": 8})
+        c.run("checks.c03:WIRELONG", {"lengths": tuple(range(1, 129, 9)) + (120, 124, 125, 126, 127, 128)})
         c.out_of_bounds += ["fully symbolic payloads longer than 5 bytes", "arbitrary accepted byte strings longer than 7 bytes", "corruptions of frames longer than 6 bytes, three or more flipped bits",
                             "ACK/NAK candidates carrying a data field are don't-care for the exact-inverse clause"]
     return c.finish()
